@@ -112,6 +112,11 @@ type Sched struct {
 	lowPrio int
 }
 
+// TraceAll makes the scheduler keep the complete event trace (debugging aid for
+// the determinism self-test).
+var TraceAll bool
+var FullTrace []string
+
 // S is the active scheduler; nil means pass-through.
 var S *Sched
 
@@ -366,6 +371,9 @@ func (s *Sched) note(entry string) {
 	h.Write(b[:])
 	h.Write([]byte(entry))
 	s.hash = h.Sum64()
+	if TraceAll {
+		FullTrace = append(FullTrace, entry)
+	}
 	if len(s.tail) >= tailLen {
 		copy(s.tail, s.tail[1:])
 		s.tail = s.tail[:tailLen-1]
